@@ -14,8 +14,8 @@ from . import common, evalcommon as ec
 PROPERTY = 'C19'
 
 META = {
-    'bounds': {'quick': 'request sequences of length <=4, train_step in {-1,1,2,3}, trained/untrained start, with and without predict hook',
-               'thorough': 'length <=7'},
+    'bounds': {'quick': 'objective may return +inf (k<=3); request sequences of length <=4, train_step in {-1,1,2,3}, trained/untrained start, with and without predict hook',
+               'thorough': 'inf k<=4; length <=7'},
     'stubs': ['Problem.evaluate -> uninterpreted function + call log',
               'Problem.predict (the hook) -> returns None or a fresh value by symbolic choice, consultations logged',
               'train() of a harness subclass of SurrogateModelPredict records the call and sets `trained` to a symbolic boolean '
